@@ -144,3 +144,4 @@ def run(ctx):
     # 7. no walk over a stored tree recurses on the worker's stack
     shared.recursion_audit(ctx, '7', ['db::IndexedChangeSet', 'column::HashColumn::prepare', 'column::HashColumn::claim', 'multitree::'])
     shared.no_fixed_slice_of_client_key(ctx, '7', ['db::IndexedChangeSet', 'db::DbInner', 'column::HashColumn'])
+    shared.tree_lock_decision(ctx, '8')
